@@ -8,16 +8,21 @@ SPEC = dict(
           "minimum / beyond it / short of it, optional operations between recalculation and pulse, pulse sweep in which every callback performs "
           "0-2 scripted operations incl. on nodes of its own callback stack; destruction only of nodes outside the callback stack), followed by a "
           "quiet cycle whenever due nodes were deferred.  Oracle rules (1)-(5) of the design against a flat model (node -> attached?, valid?, last "
-          "answer).  A case is non-trivial with >= 3 nodes, >= 10 callbacks fired and >= 3 operations performed inside callbacks"),
+          "answer).  A case is non-trivial with >= 3 nodes, >= 10 callbacks fired and >= 3 operations performed inside callbacks.  Leg 'server': the real root manager, "
+          "ReflectServer on the real clock, with instrumented factories (some not ready to accept, some wanting pulses), sessions over socket pairs and extra "
+          "PulseNode children; ServerProcessLoop(0) steps and 40-60 ms waits; causal verdicts only (asked before every wait, wake-up time == minimum, never "
+          "early, nothing due left once ServerProcessLoop(runUntil) has returned and a quiet cycle has run); lateness is not judged"),
     assumptions=['GetPulseTime() itself performs no operations (only Pulse() callbacks and the code between sweeps do)',
                  'a node (or an ancestor) detached by a callback of the running sweep may or may not still fire in that sweep (counted as unspecified_fired_after_detach_in_same_sweep)',
                  'a due node may be deferred to the next cycle when an operation since the last recalculation touched its top-level subtree; the quiet follow-up cycle must fire it',
                  'asking a valid node again is not forbidden by the statement (counted as unspecified_valid_node_asked_again)',
                  'the manager always recalculates before it pulses, as ReflectServer does',
+                 'server leg: sessions and factories for which EndSession()/RemoveAcceptFactory() was called are not judged any more',
                  'g++ 12 ASan/UBSan/LSan and valgrind memcheck report what they claim to report'],
     legs=[
         Leg('regress', 'h_pulse', 'asan', opts={'mode': 'regress'}, quick=1, thorough=1, workers=1, leaks=True, min_cases=1),
         Leg('model', 'h_pulse', 'asan', opts={'mode': 'model'}, quick=32000, thorough=1600000, workers=16, leaks=True),
+        Leg('server', 'h_pulse', 'asan', opts={'mode': 'server'}, quick=640, thorough=32000, workers=16, leaks=True),
         Leg('memcheck', 'h_pulse', 'plain', opts={'mode': 'model'}, quick=640, thorough=12800, workers=16, valgrind=True),
     ],
     min_stats={'model': {'pulse_sweeps': 1300000, 'fires': 4700000, 'asks': 5500000, 'quiet_cycles_after_deferral': 140000, 'deferred_nodes': 800000,
@@ -25,5 +30,8 @@ SPEC = dict(
                          'cb:op_destroy': 175000, 'cb:op_invalidate_clear': 300000, 'cb:op_invalidate_keep': 300000, 'cb:op_invalidate_self': 220000,
                          'cb:op_moved_a_node_of_the_callback_stack': 7000, 'cb:op_detached_a_node_of_the_callback_stack': 5000,
                          'cycles_with_operations_between_recalculation_and_pulse': 330000, 'cases_with_100_or_more_nodes': 2500,
-                         'cases_with_a_single_node': 900, 'cases_with_several_roots': 2300, 'cases_depth_7_or_8': 6000, 'max_nodes': 200, 'max_depth': 8}},
+                         'cases_with_a_single_node': 900, 'cases_with_several_roots': 2300, 'cases_depth_7_or_8': 6000, 'max_nodes': 200, 'max_depth': 8},
+               'server': {'server_cases': 600, 'server_timed_loops': 1200, 'server_single_steps': 5000, 'factory_nodes_not_ready_wanting_pulse': 5000,
+                          'fires_factory_while_not_ready': 700, 'session_child_nodes': 300, 'fires_server': 1000, 'fires_factory': 1800,
+                          'fires_session': 2500, 'fires_child': 3000, 'asks_factory': 2500, 'cb:srv_op_invalidate': 1500, 'cb:srv_op_attach_child': 700}},
 )
